@@ -848,7 +848,8 @@ class ExcelInPython:
         if isinstance(value, float) and value == value and value not in (float('inf'), float('-inf')):
             # 15 significant digits, no trailing ".0": 3/3 is 1, 0.1+0.2 is 0.3; from 1e15 on the exponent form, which Excel
             # writes with a capital E: 2.5E+15
-            text = '%.15g' % value
+            # (adding 0.0 turns a minus zero, as 0/-5 gives it, into the zero Excel writes: 0, not -0)
+            text = '%.15g' % (value + 0.0)
             return text.replace('e+', 'E+')
 
         return str(value)
